@@ -18,30 +18,32 @@ def jobs(tier):
 
     def add(n, h, fault, two, bound, deadline=120):
         cfg = {"n": n, "h": h, "two": two}
+        if (h // 8) % 2 == 0:
+            cfg.update({"tbuf": 1, "soft": 1, "hard": 1})  # one backend event slot, reused by every statement
         cfg.update(fault)
         js.append({"scenario": "c10.ub", "cfg": cfg, "bound": bound, "deadline": deadline})
     # (A) one thread: every history of n statements over the six kinds x every single sink fault position
-    for h in range(6 ** 2):
+    for h in range(8 ** 2):
         for f in FAULTS:
             add(2, h, f, 0, 1)
-    for h in range(6 ** 3):
-        for f in FAULTS:
+    for h in range(8 ** 3):
+        for f in (FAULTS if not q else (FAULTS[0], FAULTS[2], FAULTS[4], FAULTS[7])):
             add(3, h, f, 0, 0 if q else 1)
     if not q:
-        for h in range(6 ** 4):
+        for h in range(8 ** 4):
             for f in (FAULTS[0], FAULTS[2], FAULTS[4], FAULTS[7]):
                 add(4, h, f, 0, 0)
     # (B) two threads / two loggers sharing sink 2: each kind of unformattable statement in the middle
-    for kind in range(6):
-        h = kind * 6
+    for kind in range(8):
+        h = kind * 8
         for f in ((FAULTS[0], FAULTS[7]) if q else FAULTS):
             add(3, h, f, 1, 1 if q else 2, 300)
     return js
 
 
 def run(ctx):
-    ctx.rule = ("(A) every history of 2-3 (thorough: 4) statements over {ok, run-time format string with a missing argument, user "
-                "formatter throwing std::runtime_error / int / a non-std class, LOG_BACKTRACE without init} x every position of a "
+    ctx.rule = ("(A) every history of 2-3 (thorough: 4) statements over {ok, ok with named arguments, run-time format string with a missing argument, placeholders "
+                "with no arguments at all, user formatter throwing std::runtime_error / int / a non-std class, LOG_BACKTRACE without init} x every position of a "
                 "single std::exception thrown by sink 1's write, sink 1's flush or sink 2's write, followed by flush_log(); (B) the "
                 "same with a second thread logging through a second logger that shares sink 2, all schedules up to the preemption "
                 "bound; every other statement delivered once in order, one notification per fault (no flood), flush_log returns, "
